@@ -24,6 +24,7 @@ type hstate struct {
 	expando  map[string]bool
 	step     int
 	opText   string
+	note     string // prefix for never-acceptable outcomes of the next statement
 }
 
 func gvFromJV(v rb.JV) rb.GV {
@@ -113,8 +114,7 @@ func (s *hstate) compare(op Op, class string) bool {
 	origOK := true
 	origC := ""
 	if s.kind == "slice" && !s.detached || s.kind == "map" || s.h.Pass == "ptr" {
-		origC = rb.ValCanon(s.orig.Interface())
-		origOK = origC == want
+		origC, origOK = s.origView(want)
 	}
 	if liveC == want && scriptOK && origOK {
 		return true
@@ -206,9 +206,29 @@ func (s *hstate) resync() bool {
 		return false
 	}
 	if s.kind == "slice" && !s.detached || s.kind == "map" || s.h.Pass == "ptr" {
-		return rb.ValCanon(s.orig.Interface()) == valCanonGV(s.shadow)
+		_, ok := s.origView(valCanonGV(s.shadow))
+		return ok
 	}
 	return true
+}
+
+// origView renders the Go-side variable and compares it with the shadow. A
+// slice header held by the Go side keeps its own length (it was passed by
+// value), so only the elements both views have are compared.
+func (s *hstate) origView(want string) (string, bool) {
+	if s.kind != "slice" {
+		c := rb.ValCanon(s.orig.Interface())
+		return c, c == want
+	}
+	n := s.orig.Len()
+	if len(s.shadow.E) < n {
+		n = len(s.shadow.E)
+	}
+	pre := s.shadow
+	pre.E = pre.E[:n]
+	pre.Nil = false
+	c := rb.ValCanon(s.orig.Slice(0, n).Interface())
+	return c, c == valCanonGV(pre)
 }
 
 func opText(op Op) string {
@@ -230,8 +250,10 @@ func opText(op Op) string {
 func (s *hstate) observe(op Op, expr string) (attempt, bool) {
 	a := s.k.try(expr)
 	s.k.c.Eval(1)
+	note := s.note
+	s.note = ""
 	if kind, what := a.bad(); kind != "" {
-		s.k.fail(kind, s.site(op), "a TypeError/RangeError the script can catch, or the operation takes effect", what+" [step "+strconv.Itoa(s.step)+": "+s.opText+"]", a.stack)
+		s.k.fail(kind, s.site(op), "a TypeError/RangeError the script can catch, or the operation takes effect", note+what+" [step "+strconv.Itoa(s.step)+": "+s.opText+"]", a.stack)
 		return a, false
 	}
 	return a, true
@@ -287,6 +309,9 @@ func (s *hstate) seqOp(op Op) bool {
 			expr = "c.push(" + op.V.Src() + ")"
 			idx = L
 		}
+		if e.m == mustOK && s.writable && (idx < L || isSlice && idx == L) {
+			s.note = "refused although the value denotes a " + s.et + ": "
+		}
 		a, ok := s.observe(op, expr)
 		if !ok {
 			return false
@@ -311,6 +336,9 @@ func (s *hstate) seqOp(op Op) bool {
 		case idx < L:
 			if e.m == mustFail {
 				class = "silent (" + e.why + ")"
+				if lv, ok := s.live(); ok && lv.Len() > idx {
+					class = zfMark(e, lv.Index(idx)) + class
+				}
 			} else {
 				lv, _ := s.live()
 				g, msg := s.stored(e, *op.V, lv.Index(idx))
@@ -441,11 +469,11 @@ func (s *hstate) seqOp(op Op) bool {
 		}
 		return s.compare(op, "length write")
 	case "jspop":
-		want := "undefined"
+		want := "__popped === undefined"
 		if L > 0 {
-			want = "__desc(" + rb.JSLit(s.shadow.E[L-1], true) + ")"
+			want = "__eq(__popped, " + rb.JSLit(s.shadow.E[L-1], true) + ")"
 		}
-		a, ok := s.observe(op, "__desc(c.pop())")
+		a, ok := s.observe(op, "__popped = c.pop()")
 		if !ok {
 			return false
 		}
@@ -462,9 +490,8 @@ func (s *hstate) seqOp(op Op) bool {
 				s.shadow.E[L-1] = zeroGV(s.et)
 			}
 		case !a.loud() && (L == 0 && n == 0 || isSlice && n == L-1):
-			w := k.try(want)
-			if L > 0 && w.result != a.result {
-				k.fail("mismatch", s.site(op), w.result, a.result, s.opText)
+			if w := k.try(want); w.result != "b:true" {
+				k.fail("mismatch", s.site(op), want, k.try("__desc(__popped)").result, s.opText)
 				return false
 			}
 			if L > 0 {
@@ -555,6 +582,9 @@ func (s *hstate) mapOp(op Op) bool {
 	switch op.K {
 	case "jsset":
 		e := denote(s.et, *op.V, k.numberIn)
+		if e.m == mustOK && valid && !s.shadow.Nil {
+			s.note = "refused although the value denotes a " + s.et + ": "
+		}
 		a, ok := s.observe(op, ref+" = "+op.V.Src())
 		if !ok {
 			return false
@@ -568,6 +598,8 @@ func (s *hstate) mapOp(op Op) bool {
 			}
 		case !valid:
 			class = "invalid key"
+		case s.shadow.Nil:
+			class = "nil map" // a nil map cannot hold the entry: the write is ignored
 		case e.m == mustFail:
 			class = "silent (" + e.why + ")"
 		default:
@@ -715,11 +747,14 @@ func (s *hstate) structOp(op Op) bool {
 			// struct passed by value: ignored
 		case e.m == mustFail:
 			class = "silent (" + e.why + ")"
+			if lv, ok := s.live(); ok {
+				class = zfMark(e, lv.FieldByIndex(idx)) + class
+			}
 		default:
 			lv, _ := s.live()
 			g, msg := s.stored(e, *op.V, lv.FieldByIndex(idx))
 			if msg != "" {
-				k.fail("mismatch", s.site(op), "exact or loud", "wrong: "+msg+" [step "+strconv.Itoa(s.step)+": "+s.opText+"]", "")
+				k.fail("mismatch", s.site(op), "exact or loud", zfMark(e, lv.FieldByIndex(idx))+"wrong: "+msg+" [step "+strconv.Itoa(s.step)+": "+s.opText+"]", "")
 				return false
 			}
 			*s.fieldGV(idx) = g
